@@ -80,7 +80,7 @@ def gen_plan(rng, tier, idx, opts):
             ops.append({"op": "skip", "n": n})
             pos += n
         elif r < 0.305 and shape is not None and not bursty:
-            ops.append({"op": "set_shape_bad", "v": rng.choice(["neg", "frac", "str"])})       # a REFUSED shape assignment (same rank): nothing may change
+            ops.append({"op": "set_shape_bad", "v": rng.choice(["neg", "frac", "str", "huge"])})       # a REFUSED shape assignment (same rank): nothing may change
         elif r < 0.315:
             ops.append({"op": "scribble", "factor": rng.choice([2.0, 0.0, -1.0])})     # the caller scales/overwrites IN PLACE what it was handed last
         elif r < 0.33:
@@ -216,7 +216,8 @@ def execute(plan):
                     if cs is None:
                         continue
                     cs = tuple(int(x) for x in cs)
-                    bad = {"neg": cs[:-1] + (-1,), "frac": cs[:-1] + (1.5,), "str": "a" if len(cs) == 1 else cs[:-1] + ("a",)}[op["v"]]
+                    bad = {"neg": cs[:-1] + (-1,), "frac": cs[:-1] + (1.5,), "str": "a" if len(cs) == 1 else cs[:-1] + ("a",),
+                           "huge": cs[:-1] + (10 ** 13,)}[op["v"]]           # well-formed, but far beyond any memory
                     try:
                         gen.shape = bad
                         accepted = True
@@ -227,15 +228,15 @@ def execute(plan):
                         viol("shape", step, "the inadmissible shape %r was accepted" % (bad,), kind="accepted")
                         break
                     got_shape = gen.shape
-                    if got_shape is None or tuple(int(x) for x in got_shape) != cs:
-                        # the refused assignment left another shape behind: the object is what it says it is now (documented: a
-                        # shape change redraws the phases); follow it
-                        bump(res["probes"], "refused_shape_assignment_changed_the_shape")
-                        base = () if got_shape is None else tuple(got_shape)
-                        phi = np.array(gen._phi_l, copy=True)
-                        psi = np.array(gen._psi_l, copy=True)
-                        last = None
-                        first_sample = None
+                    try:
+                        same_shape = got_shape is not None and tuple(int(x) for x in got_shape) == cs
+                    except (TypeError, ValueError):
+                        same_shape = False
+                    if not same_shape:
+                        # F25 (repaired): the generator must not report a shape it refused
+                        viol("shape", step, "after the REFUSED assignment of %r the generator reports shape %r (it was %r and still produces samples of that shape)" % (
+                            bad, got_shape, cs), kind="refused_shape_kept")
+                        break
                     elif not (np.array_equal(gen._phi_l, phi) and np.array_equal(gen._psi_l, psi)):
                         viol("phases", step, "a REFUSED shape assignment (%r, shape still %r) redrew the generator's random phases" % (bad, cs))
                         break
